@@ -18,6 +18,7 @@ import warnings
 import numpy as np
 
 from . import c04trace as T
+from . import c04lines as LN
 from .common import zl, zlist
 
 PROP = 'C04'
@@ -1025,7 +1026,11 @@ def first_call_sweep(ctx):
             f = mk[kind]()
             res, evs = [], []
             for i in range(2):
+                hb = LN.heap_digest(f)
                 r, ev, _ = T.run_solo(call_job(f, m, kw, ys[i]), [f])
+                hm = LN.mutated_in_place(hb, LN.heap_digest(f))
+                if hm:
+                    ctx.broke('shared-heap-immutable(call boundaries, whole catalogue)', f'{m}{kw} on {kind}: {hm[:3]} changed in place')
                 res.append(r)
                 evs.append([e for e in ev if e[0] in 'RW'])
             if res[0][0] != 'ok':
@@ -1039,7 +1044,7 @@ def first_call_sweep(ctx):
                       and e[2] in ('x', 'z', 'size', 'shape')], default=2) + 1
             full = (two_d and reads_size) or (ctx.tier == 'thorough' and not two_d)
             thor2 = ctx.tier == 'thorough' and two_d and not full
-            bs = list(range(0, pa + 2)) if full else (list(range(1, pa + 2, 2)) if thor2 else ([3, 5] if two_d else [1, 3]))
+            bs = list(range(0, pa + 2)) if full else (list(range(1, pa + 2, 2)) if thor2 else ([4] if two_d else [2]))
             for a in (range(0, pa + 1) if (full or thor2) else sorted({1, 2, pa - 4, pa - 3, pa - 1, pa} & set(range(1, pa + 1)))):
                 for b in bs:
                     f = mk[kind]()
@@ -1071,6 +1076,114 @@ def first_call_sweep(ctx):
         ctx.broke(ob, f'read sites of lazily initialised attributes not executed by any replayed first call: {unc[:8]}')
     else:
         ctx.discharged.append(ob)
+
+
+
+# ------------------------------------------------------------------------------------------------
+# the shared heap is immutable (value abstraction of the models) + source-line-granular pre-emption
+
+LINE_METHODS = [   # (two_d, method key, kinds): every user of a cached helper inside an iterative body, warm and cold
+    (False, 'pspline_asls', ('spl:8', 'x')), (False, 'mixture_model', ('spl:8', 'x')), (False, 'pspline_iasls', ('spl:8',)),
+    (False, 'irsqr', ('spl:8', 'x')), (False, 'modpoly', ('warm:2', 'x')), (False, 'imodpoly', ('warm:2',)),
+    (False, 'loess', ('warm:1',)), (False, 'quant_reg', ('warm:2',)), (False, 'goldindec', ('warm:2',)),
+    (False, 'iasls', ('warm:2',)), (False, 'asls', ('x',)),
+    (True, 'pspline_asls', ('xz+s5',)), (True, 'pspline_iasls', ('xz+l5',)), (True, 'modpoly', ('xz',)),
+]
+MODEL_METHODS['irsqr'] = {'num_knots': 8, 'lam': 10, 'max_iter': 3}
+
+
+def _line_setup(two_d, name, kind):
+    meth, kw = (name, METHODS_2D[name]) if two_d else method_of(name)
+    mk = (lambda: make_obj2(kind)) if two_d else (lambda: make_obj(kind))
+    ys = [ydata2(i) if two_d else ydata(i) for i in range(2)]
+    return meth, kw, mk, ys
+
+
+def line_run(two_d, name, kind, k):
+    meth, kw, mk, ys = _line_setup(two_d, name, kind)
+    f = mk()
+    r = LN.LineRun(call_job(f, meth, kw, ys[0]), call_job(f, meth, kw, ys[1]), pause_at=k).run()
+    g = mk()
+    ref = []
+    for i in range(2):
+        try:
+            with warnings.catch_warnings():
+                warnings.simplefilter('ignore')
+                ref.append(('ok', getattr(g, meth)(ys[i], **kw)))
+        except Exception as e:      # noqa
+            ref.append(('exc', (type(e).__name__, str(e)[:200])))
+    outs = [outcome_code(r.res_a, ref[0]), outcome_code(r.res_b, ref[1])]
+    return r, outs
+
+
+def heap_cases(ctx):
+    import os
+    repo = os.environ.get('VERIF_REPO', '/repo')
+    # (1) static: every attribute stored on a cached helper object is reviewed
+    ob = 'scan:attributes-of-cached-helper-objects-are-reviewed(constructor-constant or modelled cell)'
+    ctx.obligations.append(ob)
+    found = LN.helper_attr_scan(repo)
+    newa = {c: sorted(a - set(LN.REVIEWED_HELPER_ATTRS[c])) for c, a in found.items() if a - set(LN.REVIEWED_HELPER_ATTRS[c])}
+    newc = sorted(c for c in LN.cached_classes_scan(repo) if c not in LN.REVIEWED_HELPER_ATTRS and c not in ('tuple', 'list', 'dict', 'int', 'float'))
+    ctx.extra['cached_helper_scan'] = {c: sorted(a) for c, a in found.items()}
+    if newa or newc or set(found) != set(LN.REVIEWED_HELPER_ATTRS):
+        ctx.broke(ob, f'new shared state on cached helper objects (attributes {newa}, helper classes {newc}): every such attribute is '
+                      'reachable from all threads sharing the fitter and is neither a reviewed constructor constant nor a modelled cell')
+    else:
+        ctx.discharged.append(ob)
+    # (2) dynamic: no array reachable from the shared fitter changes in place during a call (digest at every line)
+    ob2 = 'shared-heap-immutable(no array reachable from the shared fitter or its cached helpers is mutated in place; digest at every executed line)'
+    ctx.obligations.append(ob2)
+    directed = {}
+    bad = []
+    for two_d, name, kinds in LINE_METHODS:
+        for kind in kinds:
+            meth, kw, mk, ys = _line_setup(two_d, name, kind)
+            f = mk()
+            r = LN.LineRun(call_job(f, meth, kw, ys[0]), monitor=f).run()
+            directed[(two_d, name, kind)] = (r.count, [m[0] for m in r.mut])
+            ctx.case(('heap', two_d, name, kind), kind='heap-digest')
+            if r.mut:
+                bad.append(f'{"2-D " if two_d else ""}{name} on {kind}: {r.mut[0][2][:2]} changed in place at {r.mut[0][1]} ({len(r.mut)} times)')
+    if bad:
+        ctx.broke(ob2, '; '.join(bad[:6]))
+    else:
+        ctx.discharged.append(ob2)
+    # (3) line-granular pre-emption: A paused at its k-th executed line, B runs its whole call, A resumes
+    nrun = 0
+    for (two_d, name, kind), (count, muts) in directed.items():
+        ks = set()
+        for mline in muts[:40]:
+            ks.update(range(mline, mline + 4))          # directed by the in-place writes found above
+        if ctx.tier == 'thorough' or muts:
+            stride = (1 if muts else 2) if ctx.tier == 'thorough' else max(1, count // 60)
+        else:
+            stride = max(1, count // 28)
+        ks.update(range(1 + ctx.rng.randrange(stride), count + 1, stride))
+        found_fail = 0
+        for k in sorted(ks):
+            if k > count or found_fail >= 2:
+                continue
+            r, outs = line_run(two_d, name, kind, k)
+            nrun += 1
+            ctx.case(('line', two_d, name, kind, k), kind=f'line-preemption:{"2d" if two_d else "1d"}:{name}')
+            if r.timed_out:
+                ctx.broke('scheduler', f'line pre-emption {name} on {kind} at line {k} timed out')
+                break
+            if any(outs):
+                found_fail += 1
+                res = [r.res_a, r.res_b]
+                msgs = []
+                for i, o in enumerate(outs):
+                    if o == 1:
+                        msgs.append(f'thread {i} returns a result different from the serial one')
+                    elif o:
+                        msgs.append(f'thread {i} raises {res[i][1][0]}: {res[i][1][1][:90]}' if res[i] and res[i][0] == 'exc' else f'thread {i} did not finish')
+                ctx.fail(finding_key(kind, name, two_d) or f'race:{"2d" if two_d else "1d"}:{name}:{kind.split(":")[0].split("+")[0]}',
+                         f'{"2-D " if two_d else ""}{name} on a shared object ({kind}), thread 0 pre-empted at its executed line {k} of {count} while '
+                         f'thread 1 runs its whole call: ' + '; '.join(msgs),
+                         {'granularity': 'line', 'kind': kind, 'method': name, 'pause_at': k, 'two_d': two_d, 'threads': 2, 'outcomes': outs})
+    ctx.extra['line_preemption_runs'] = nrun
 
 
 
@@ -1117,6 +1230,7 @@ def run(ctx):
     bad3 = model2d_cases(ctx)
     bad4 = spline2d_cases(ctx)
     first_call_sweep(ctx)
+    heap_cases(ctx)
     t3 = time.time()
     budget = 1 if (ok and not ctx.broken and ctx.tier == 'quick') else 4
     oracle(ctx, budget)
@@ -1136,6 +1250,13 @@ def replay(rep):
         return 1
     two_d = bool(case.get('two_d'))
     nt = int(case['threads'])
+    if case.get('granularity') == 'line':
+        r, outs = line_run(two_d, case['method'], case['kind'], int(case['pause_at']))
+        for i, rr in enumerate((r.res_a, r.res_b)):
+            print(f'thread {i}: outcome {outs[i]}', rr[1] if rr and rr[0] == 'exc' else '')
+        print('(thread 0 paused at its executed source line', case['pause_at'], 'inside pybaselines while thread 1 ran its whole call; '
+              '0 = identical to serial, 1 = different result, other = exception)')
+        return 1 if any(outs) else 0
     if case.get('sweep'):
         kw = case.get('kwargs') or {}
         tag = f"__sweep__{case['method']}"
